@@ -341,9 +341,69 @@ impl Monitors {
 
     // --------------------------------------------------------------------------------------
 
+    /// Initialise the model from the durable history a restarted server was booted from.
+    pub fn load_base(&mut self, base: &[hyperqueue::server::event::Event], world: &World) {
+        let mut scratch = Obs::default();
+        let events: Vec<(u32, hyperqueue::server::event::Event)> =
+            base.iter().map(|e| (0u32, e.clone())).collect();
+        self.ev_idx = 0;
+        self.fold_events(&events, &mut scratch);
+        // a restart forgets which tasks were running
+        for tm in self.tasks.values_mut() {
+            tm.running_on = None;
+        }
+        // tasks that finished before the restart were executed successfully then
+        let finished: Vec<TaskId> = self
+            .tasks
+            .iter()
+            .filter(|(_, m)| matches!(m.terminal, Some((Kind::Finished, _))))
+            .map(|(t, _)| *t)
+            .collect();
+        self.exec_finished_ok.extend(finished);
+        self.ev_idx = 0;
+        self.submits.clear();
+        self.prev_views = job_views(world);
+        self.prev_snap = Some(world.snapshot());
+        // crash counters continue from what the restore handed to the scheduler
+        if let Some(snap) = &self.prev_snap {
+            for ts in &snap.tasks {
+                if let Some(tm) = self.tasks.get_mut(&ts.id) {
+                    tm.crash_count = ts.crash_counter;
+                }
+            }
+        }
+        // jobs completed in the base are gone
+        let present: BTreeSet<JobId> = self.prev_views.keys().copied().collect();
+        let known: Vec<JobId> = self.jobs.keys().copied().collect();
+        for j in known {
+            if !present.contains(&j) {
+                self.forgotten.insert(j);
+            }
+        }
+        // executions before the restart used the recorded instance ids
+        for (_, e) in &events {
+            if let EventPayload::TaskStarted {
+                task_id,
+                instance_id,
+                ..
+            } = &e.payload
+            {
+                let v = self.last_build_instance.entry(*task_id).or_insert(0);
+                *v = (*v).max(instance_id.as_num());
+            }
+        }
+    }
+
     fn process_events(&mut self, world: &World, obs: &mut Obs) -> MicroDelta {
+        self.fold_events(&world.events, obs)
+    }
+
+    fn fold_events(
+        &mut self,
+        events: &[(u32, hyperqueue::server::event::Event)],
+        obs: &mut Obs,
+    ) -> MicroDelta {
         let mut delta = MicroDelta::default();
-        let events = &world.events;
         while self.ev_idx < events.len() {
             let (step, ev) = &events[self.ev_idx];
             self.ev_idx += 1;
